@@ -235,7 +235,7 @@ def check_control_shape(F, C, f, kinds, shape):
 
 
 def check_copyright_shape(F, C, f, shape):
-    kinds = {"F": (("Files", "f"), ("License", "l")), "L": (("License", "l"),), "N": (("Comment", "c"),)}
+    kinds = {"F": (("License", "l"), ("Copyright", "c"), ("Files", "f")), "L": (("Comment", "c"), ("License", "l")), "N": (("Comment", "c"),)}
     header = para_of((("Format", "fmt"),), 99)
     paras = (header,) + tuple(para_of(kinds[k], i) for i, k in enumerate(shape))
     mod = DocMod(F, paras, {"lossy::Header": "hdr", "lossy::FilesParagraph": "files", "lossy::LicenseParagraph": "lic"})
